@@ -50,6 +50,10 @@ class Pipeline:
                 return False
         return True
 
+    def expand_histories(self, hs, tier):
+        """Hook: derive further histories from the generated ones (e.g. single-fault enumeration after a dry run)."""
+        return hs
+
     def post_drive(self, events, tier):
         """Sanity on the recorded trace (dead driver detection). Raise vk.Broken if vacuous."""
         return
@@ -111,6 +115,7 @@ class Pipeline:
             hs = rnd.sample(hs, cap)
         if len(hs) < self.min_histories:
             raise vk.Broken("only %d histories generated" % len(hs))
+        hs = self.expand_histories(hs, tier)
         events = self.drive(hs)
         self._events = events
         self.post_drive(events, tier)
